@@ -67,6 +67,10 @@ def run(check, an: Analysis):
     check.rule('G', 'sign split of the remaining delay; negative periods rejected before the '
                     'first wait')
     check.rule('Y', 'every step must suspend')
+    check.rule('P', 'the pause primitives withdraw their wake-up on every exit (a ticker '
+                    'closed during its pause leaves nothing behind), and a nested run() in '
+                    'the body gives the clock of this simulation back (rules shared with '
+                    'C03 and C15)')
     check.rule('L3', 'suspend(delay=...) dominated by delay > 0')
     ifn = an.fn(INTERVAL)
     dfn = an.fn(DELAY)
@@ -259,6 +263,12 @@ def run(check, an: Analysis):
         check.instance('Y', '%s:step' % label, seg is None, where_fn(callee.fn),
                        'every entry|yield -> yield segment contains a MUST suspension',
                        path=lines, analysed=len(an.paths(callee)))
+    # ---- P ------------------------------------------------------------------
+    from . import _scope, c03, c15
+    c03._check_signal_lifecycles(
+        check, an, _scope.wrapper_callee(an), rule='P',
+        only=lambda fn, cls: fn.cls is None and fn.name in ('suspend', 'postpone'))
+    c15.check_assign_restores(check, an, 'P')
     check.stats.update(an.stats())
 
 
